@@ -68,7 +68,7 @@ def own_dict(o):
     return 'dict(%s)' % ', '.join('%s=%s' % (p['n'], p['n']) for p in o if p['k'] not in ('var', 'vkw'))
 
 
-def render_stack(layers, base, kinds, fls, placement):
+def render_stack(layers, base, kinds, fls, placement, reuse=False):
     """layers: outermost first, parameter lists WITHOUT the leading func parameter; kinds[k] in {'decorator', 'wrapper_decorator'};
     fls[k] = {'n', 'names'} how layer k calls the wrapped callable (decorator: n = 0, no names)"""
     L = ['import functools', 'from sigtools import wrappers, specifiers', '']
@@ -86,7 +86,7 @@ def render_stack(layers, base, kinds, fls, placement):
               "    return ('d%d', %s, %s)" % (k, own_dict(o), call_inner(o, fl)), '']
     selfp = [] if placement in ('function', 'static') else [dict(FUNC, n='self', k='po' if base and base[0]['k'] == 'po' else 'pok')]
     bparams = absig.render_params(selfp + list(base))
-    decos = ['@d%d' % k for k in range(1, n + 1)]
+    decos = ['@d%d' % (1 if reuse else k) for k in range(1, n + 1)]      # reuse: the SAME wrapping function in every layer
     if placement == 'function':
         L += decos + ['def w(%s):' % bparams, '    return locals()', '']
         L += ['def base_raw(%s):' % bparams, '    return locals()', '']
@@ -99,14 +99,14 @@ def render_stack(layers, base, kinds, fls, placement):
     return '\n'.join(L)
 
 
-def hand_written(g, n, first=None):
+def hand_written(g, n, first=None, reuse=False):
     """d1(lambda *a, **k: d2(... base ...), *a, **k) with the undecorated wrapper functions"""
     h = g['base_raw']
     if first is not None:
         inner = h
         h = lambda *a, **k: inner(first, *a, **k)          # noqa: the bound method
     for k in range(n, 0, -1):
-        h = (lambda d, hh: (lambda *a, **kw: d(hh, *a, **kw)))(g['raw%d' % k], h)
+        h = (lambda d, hh: (lambda *a, **kw: d(hh, *a, **kw)))(g['raw%d' % (1 if reuse else k)], h)
     return h
 
 
@@ -134,13 +134,13 @@ def shapes(names, maxpos):
                 yield np_, list(kw)
 
 
-def stack_event(tid, layers, base, kinds, fls, placement, kwmax=3):
+def stack_event(tid, layers, base, kinds, fls, placement, kwmax=3, reuse=False):
     import sigtools
     from sigtools import signatures, wrappers
-    src = render_stack(layers, base, kinds, fls, placement)
+    src = render_stack(layers, base, kinds, fls, placement, reuse)
     g, fname = progs.compile_module(src)
     e = {'tid': tid, 'op': 'wrapstack', 'layers': layers, 'base': base, 'kinds': kinds, 'fls': fls, 'placement': placement,
-         'case': {'layers': layers, 'base': base, 'kinds': kinds, 'fls': fls, 'placement': placement, 'src': src}}
+         'case': {'layers': layers, 'base': base, 'kinds': kinds, 'fls': fls, 'placement': placement, 'src': src, 'reuse': reuse}}
     try:
         n = len(layers)
         inst = None
@@ -155,7 +155,7 @@ def stack_event(tid, layers, base, kinds, fls, placement, kwmax=3):
             if placement == 'static':
                 unbound = None
         first = inst if placement == 'method' else None
-        hand = hand_written(g, n, first)
+        hand = hand_written(g, n, first, reuse)
         routes = [('sigtools', lambda: sigtools.signature(target)), ('sigtools-noauto', lambda: sigtools.signature(target, auto=False)),
                   ('signatures', lambda: signatures.signature(target)), ('inspect', lambda: inspect.signature(target))]
         e['adv'] = [dict(retrieve(t), route=r) for r, t in routes]
@@ -168,7 +168,7 @@ def stack_event(tid, layers, base, kinds, fls, placement, kwmax=3):
             d = g['d%d' % k]
             raws[id(getattr(d, '__wrapped__', None) or getattr(d, 'wrapper', None))] = 'd%d' % k
         e['wrappers_listed'] = [raws.get(id(w), 'other:' + getattr(w, '__name__', '?')) for w in listed]
-        e['wrappers_expected'] = ['d%d' % k for k in range(1, n + 1)]
+        e['wrappers_expected'] = ['d%d' % (1 if reuse else k) for k in range(1, n + 1)]
         names = [x for x in progs.named_names(*(list(layers) + [base])) if x not in ('self', 'func')] + ['zz']
         maxpos = sum(progs.npos(o) for o in layers) + progs.npos(base) + 1 + sum(f['n'] for f in fls)
         calls = []
@@ -187,28 +187,35 @@ def stack_event(tid, layers, base, kinds, fls, placement, kwmax=3):
     return e
 
 
-def render_combination(funcs):
+def render_combination(funcs, wrapped_member=False):
     L = ['from sigtools import wrappers', '']
     for k, ps in enumerate(funcs, 1):
         L += ['def c%d(%s):' % (k, absig.render_params(ps)), "    return ('c%d', locals())" % k, '']
-    L += ['comb = wrappers.Combination(%s)' % ', '.join('c%d' % k for k in range(1, len(funcs) + 1)), '']
+    members = ['c%d' % k for k in range(1, len(funcs) + 1)]
+    if wrapped_member:
+        # a Combination wrapped by a decorator, as a member of another Combination: the wrapper must stay in the chain
+        L += ['@wrappers.decorator', 'def dd(func, *args, **kwargs):', "    return ('dd', func(*args, **kwargs))", '',
+              'def raw_dd(func, *args, **kwargs):', "    return ('dd', func(*args, **kwargs))", '',
+              'member0 = dd(wrappers.Combination(c1))']
+        members[0] = 'member0'
+    L += ['comb = wrappers.Combination(%s)' % ', '.join(members), '']
     return '\n'.join(L)
 
 
-def combination_event(tid, funcs, kwmax=3):
+def combination_event(tid, funcs, kwmax=3, wrapped_member=False):
     """funcs: parameter lists, each starting with the parameter that receives the previous result"""
     import sigtools
     from sigtools import signatures
-    src = render_combination(funcs)
+    src = render_combination(funcs, wrapped_member)
     g, fname = progs.compile_module(src)
-    e = {'tid': tid, 'op': 'combination', 'funcs': funcs, 'case': {'funcs': funcs, 'src': src}}
+    e = {'tid': tid, 'op': 'combination', 'funcs': funcs, 'case': {'funcs': funcs, 'src': src, 'wrapped_member': wrapped_member}}
     try:
         comb = g['comb']
         fs = [g['c%d' % k] for k in range(1, len(funcs) + 1)]
 
         def hand(arg, *a, **k):
-            for f in fs:
-                arg = f(arg, *a, **k)
+            for j, f in enumerate(fs):
+                arg = g['raw_dd'](f, arg, *a, **k) if (wrapped_member and j == 0) else f(arg, *a, **k)
             return arg
         # the forger of a Combination is not emulated: signatures.signature / inspect.signature show the plain __call__ by design
         routes = [('sigtools', lambda: sigtools.signature(comb)), ('sigtools-noauto', lambda: sigtools.signature(comb, auto=False))]
